@@ -238,3 +238,281 @@ class FindWithIndexOperator(Contract):
 
 
 CONTRACTS = [FindWithIndexOperator()]
+
+
+# ============================================================================= _SearchIndexer._find_result
+# Abstract view of a JSON-normalised filter dict (what _find_result can observe of it):
+#   presence of "_id" / "$or" / "$and" / "$not", the leaves of the remaining mapping (after flattening), the sub-filter sequences.
+# Specification: the per-job matcher M(x, f), given by its one-level unfolding over this view.
+
+Flt = z3.DeclareSort("Flt")
+Leaf = z3.DeclareSort("Leaf")
+Mf = z3.Function("M", Id, Flt, z3.BoolSort())      # job x of this indexer satisfies (sub)filter f under direct evaluation
+Lf = z3.Function("L", Id, Leaf, z3.BoolSort())     # job x satisfies leaf expression l (= contract of _find_expression)
+INSELF = z3.Function("inself", Id, z3.BoolSort())  # ids of this indexer
+
+
+class SOptSet(Sym):
+    """Optional[set of ids] with symbolic None-ness (the local `result_ids`)."""
+
+    def __init__(self, isnone, member):
+        self.isnone, self.member = isnone, member
+
+    def sym_is(self, ex, other):
+        if other is None:
+            return SBool(self.isnone)
+        raise Unsupported("`is` on optional set")
+
+    def sym_truth(self, ex):
+        return z3.And(z3.Not(self.isnone), SymSet(self.member).nonempty())
+
+    def sym_getattr(self, ex, name):
+        # only reachable where the code has established `is not None`
+        ex.oblige("signac._search_indexer._SearchIndexer._find_result#safety:no_method_call_on_None", z3.Not(self.isnone))
+        ex.assume(z3.Not(self.isnone))
+        return SymSet(self.member).sym_getattr(ex, name)
+
+
+def opt_view(v):
+    if v is None:
+        return z3.BoolVal(True), (lambda x: z3.BoolVal(False))
+    if isinstance(v, SOptSet):
+        return v.isnone, v.member
+    s = as_symset(v)
+    return z3.BoolVal(False), s.member
+
+
+class SubFilter(Sym):
+    def __init__(self, term):
+        self.term = term
+
+    def sym_is(self, ex, other):
+        if other is None:
+            return False
+        raise Unsupported("`is` on sub-filter")
+
+
+class SFltSeq(Sym):
+    """JSON-normalised list of sub-filters ($and / $or argument)."""
+
+    def __init__(self, n, at, label):
+        self.n, self.at, self.label = n, at, label
+
+    def sym_is(self, ex, other):
+        if other is None:
+            return False
+        raise Unsupported("`is` on filter list")
+
+    def sym_isinstance(self, ex, cls):
+        return cls in (list, object)
+
+    def sym_len(self, ex):
+        return SInt(self.n)
+
+    def sym_truth(self, ex):
+        return self.n > 0
+
+    def sym_iter(self, ex):
+        return CutSeq(self.n, lambda interp, i: SubFilter(self.at(i)), label=self.label)
+
+
+class SLeafPart(Sym):
+    def __init__(self, leaf, which):
+        self.leaf, self.which = leaf, which
+
+
+class SFilter(Sym):
+    KEYS = ("_id", "$or", "$and", "$not")
+
+    def __init__(self, tag="e"):
+        self.term = z3.Const("f!" + tag, Flt)
+        self.empty = z3.Bool("empty!" + tag)
+        self.has = {k: z3.Bool(f"has{k}!{tag}") for k in self.KEYS}
+        self.idval = z3.Const("idval!" + tag, Id)
+        self.nleaf = z3.Int("nleaf!" + tag)
+        self.leaf = z3.Function("leaf!" + tag, z3.IntSort(), Leaf)
+        self.nand = z3.Int("nand!" + tag)
+        self.andf = z3.Function("and!" + tag, z3.IntSort(), Flt)
+        self.nor = z3.Int("nor!" + tag)
+        self.orf = z3.Function("or!" + tag, z3.IntSort(), Flt)
+        self.notf = z3.Const("not!" + tag, Flt)
+        self.popped = set()
+
+    def matcher_unfolding(self):
+        """M(x, this filter) by direct evaluation, one level (the specification, not the code)."""
+        def body(x):
+            return z3.And(INSELF(x),
+                          z3.Implies(self.has["_id"], x == self.idval),
+                          FA_idx(0, self.nleaf, lambda k: Lf(x, self.leaf(k))),
+                          z3.Implies(self.has["$not"], z3.Not(Mf(x, self.notf))),
+                          z3.Implies(self.has["$and"], FA_idx(0, self.nand, lambda k: Mf(x, self.andf(k)))),
+                          z3.Implies(self.has["$or"], EX_idx(0, self.nor, lambda k: Mf(x, self.orf(k)))))
+        mx, mg = z3.Const("mx", Id), z3.Const("mg", Flt)
+        return [FA_id(lambda x: Mf(x, self.term) == z3.If(self.empty, INSELF(x), body(x))),
+                self.nleaf >= 0, self.nand >= 0, self.nor >= 0,
+                # a non-empty mapping has at least one key; an empty one has none
+                z3.Implies(z3.Not(self.empty), z3.Or(self.nleaf >= 1, *self.has.values())),
+                z3.Implies(self.empty, z3.And(self.nleaf == 0, *[z3.Not(h) for h in self.has.values()])),
+                # M only ever holds for ids of this indexer
+                z3.ForAll([mx, mg], z3.Implies(Mf(mx, mg), INSELF(mx)))]
+
+    def sym_truth(self, ex):
+        if self.popped:
+            raise Unsupported("truthiness of the filter after keys were popped")
+        return z3.Not(self.empty)
+
+    def sym_getattr(self, ex, name):
+        if name == "pop":
+            def pop(key, default=None):
+                if key not in self.has or default is not None:
+                    raise Unsupported(f"filter.pop({key!r})")
+                self.popped.add(key)
+                if not ex.decide(self.has[key], "has " + key):
+                    return None
+                if key == "_id":
+                    return SId(self.idval)
+                if key == "$not":
+                    return SubFilter(self.notf)
+                return SFltSeq(self.nand, self.andf, "and_expressions") if key == "$and" else SFltSeq(self.nor, self.orf, "or_expressions")
+            return NativeStub(pop, "filter.pop")
+        raise Unsupported(f"filter.{name}")
+
+
+class SLeafSeq(Sym):
+    def __init__(self, flt):
+        self.flt = flt
+
+    def sym_iter(self, ex):
+        f = self.flt
+        return CutSeq(f.nleaf, lambda interp, i: (SLeafPart(f.leaf(i), "key"), SLeafPart(f.leaf(i), "value")), label="leaves")
+
+
+class FindResultCtx(SearchCtx):
+    def native_override(self, interp, f, args, kw):
+        if f is set and not args:
+            return SymSet.empty()
+        return NotImplemented
+
+    def make_set(self, ex, vals):
+        return as_symset(vals)
+
+    def setify(self, interp, v):
+        if v is self.ghost.get("self"):
+            return SymSet(lambda x: INSELF(x))
+        if isinstance(v, SymSet):
+            return v.copy()
+        raise Unsupported("set() of this value")
+
+    def dep_call(self, interp, o, name, args, kw, via_super=False):
+        if o is self.ghost.get("self") and name == "__contains__" and isinstance(args[0], SId):
+            return SBool(INSELF(args[0].e))
+        return super().dep_call(interp, o, name, args, kw, via_super)
+
+
+def stub_flatten(interp, b):
+    o = b["d"]
+    if not isinstance(o, SFilter) or b.get("key") is not None:
+        raise Unsupported("_nested_dicts_to_dotted_keys on this value")
+    if not o.popped >= set(SFilter.KEYS):
+        raise Unsupported("flattening sees the filter before all logical keys / _id were popped (outside the abstract view)")
+    return SLeafSeq(o)
+
+
+def stub_find_expression(interp, b):
+    k, v = b["key"], b["value"]
+    if not (isinstance(k, SLeafPart) and isinstance(v, SLeafPart) and k.which == "key" and v.which == "value" and z3.eq(k.leaf, v.leaf)):
+        raise Unsupported("_find_expression called with something other than a (key, value) leaf pair")
+    if b["self"] is not interp.ctx.ghost.get("self"):
+        raise Unsupported("_find_expression on another indexer")
+    leaf = k.leaf
+    return SymSet(lambda x: z3.And(INSELF(x), Lf(x, leaf)))
+
+
+def stub_find_result_rec(interp, b):
+    sub = b["expr"]
+    if not isinstance(sub, SubFilter) or b["self"] is not interp.ctx.ghost.get("self"):
+        raise Unsupported("recursive _find_result on something other than a sub-filter of the argument")
+    t = sub.term
+    return SymSet(lambda x: Mf(x, t))   # induction hypothesis: the contract itself, on a strictly smaller filter
+
+
+class FindResult(Contract):
+    target = f"{M}._SearchIndexer._find_result"
+    properties = ("C06",)
+    ctx_class = FindResultCtx
+    inline = (f"{M}._check_logical_operator_argument",)
+    callees = {"signac._utility._nested_dicts_to_dotted_keys": stub_flatten, f"{M}._SearchIndexer._find_expression": stub_find_expression}
+    recursive_stub = staticmethod(stub_find_result_rec)
+    assumptions = ("filter is JSON-normalised (find() round-trips it through json): $and/$or arguments are lists",
+                   "structural induction on the filter: the recursive call is replaced by this contract on the sub-filter")
+
+    def loops(self, case):
+        def F(interp):
+            return interp.ctx.ghost["F"]
+
+        def idok(F_, x):
+            return z3.And(INSELF(x), z3.Implies(F_.has["_id"], x == F_.idval))
+
+        def base(F_, x, upto_leaf, with_not, upto_and):
+            return z3.And(idok(F_, x), FA_idx(0, upto_leaf, lambda k: Lf(x, F_.leaf(k))),
+                          z3.Implies(z3.And(with_not, F_.has["$not"]), z3.Not(Mf(x, F_.notf))),
+                          FA_idx(0, upto_and, lambda k: Mf(x, F_.andf(k))))
+
+        def inv_leaves(interp, fr, i, seq):
+            F_ = F(interp)
+            isnone, mem = opt_view(interp.lookup(fr, "result_ids"))
+            return z3.And(isnone == z3.And(z3.Not(F_.has["_id"]), i == 0),
+                          z3.Implies(z3.Not(isnone), FA_id(lambda x: mem(x) == base(F_, x, i, False, 0))))
+
+        def inv_and(interp, fr, i, seq):
+            F_ = F(interp)
+            isnone, mem = opt_view(interp.lookup(fr, "result_ids"))
+            return z3.And(isnone == z3.And(z3.Not(F_.has["_id"]), F_.nleaf == 0, z3.Not(F_.has["$not"]), i == 0),
+                          z3.Implies(z3.Not(isnone), FA_id(lambda x: mem(x) == base(F_, x, F_.nleaf, True, i))))
+
+        def inv_or(interp, fr, i, seq):
+            F_ = F(interp)
+            o = as_symset(interp.lookup(fr, "or_results"))
+            return FA_id(lambda x: o.member(x) == EX_idx(0, i, lambda k: Mf(x, F_.orf(k))))
+
+        def hv_opt(interp, fr, tag):
+            ex = interp.ex
+            f = z3.Function(ex.fresh_name(tag), Id, z3.BoolSort())
+            return SOptSet(z3.Bool(ex.fresh_name(tag + "_none")), lambda x: f(x))
+
+        hv_set = lambda interp, fr, tag: SymSet.fresh(interp.ex, tag)
+        return {"leaves": LoopSpec("leaves", inv_leaves, havoc={"result_ids": hv_opt}, scratch=("key", "value")),
+                "and_expressions": LoopSpec("and", inv_and, havoc={"result_ids": hv_opt}, scratch=("expr_",)),
+                "or_expressions": LoopSpec("or", inv_or, havoc={"or_results": hv_set}, scratch=("expr_",))}
+
+    def setup(self, interp, case):
+        ex = interp.ex
+        F_ = SFilter("e")
+        for a in F_.matcher_unfolding():
+            ex.assume(a)
+        rc = interp.repo.classes[f"{M}._SearchIndexer"] if interp.repo.load(M) else None
+        from pyvc.interp import Obj
+        selfobj = Obj(rc)
+        selfobj.tag = "indexer"
+        interp.ctx.ghost.update({"F": F_, "self": selfobj})
+        return [selfobj, F_], {}, {"F": F_}
+
+    def post(self, interp, case, pre, outcome):
+        ex = interp.ex
+        F_ = pre["F"]
+        if outcome[0] == "raise":
+            exc = outcome[1]
+            ok = isinstance(exc, ValueError)
+            ex.oblige(self.oname("raises:ValueError_only_for_an_empty_$and/$or_list"),
+                      z3.And(z3.BoolVal(ok), z3.Or(z3.And(F_.has["$and"], F_.nand == 0), z3.And(F_.has["$or"], F_.nor == 0))), note=repr(exc))
+            return
+        v = outcome[1]
+        if v is None or not isinstance(v, (SymSet, SOptSet, set)):
+            ex.oblige(self.oname("ensures:result_is_a_set"), False)
+            return
+        isnone, mem = opt_view(v)
+        ex.oblige(self.oname("ensures:result_is_a_set"), z3.Not(isnone))
+        ex.oblige(self.oname("ensures:result_is_exactly_the_ids_the_matcher_accepts"), FA_id(lambda x: mem(x) == Mf(x, F_.term)))
+
+
+CONTRACTS.append(FindResult())
